@@ -47,9 +47,7 @@ YeoJohnson w = nu + scale x: |lam ln(1+w)| <= 13.8 (w >= EPS), |(2-lam) ln(1-w)|
            Sx = (1+|nu|)/scale; y: argument of the power positive with |ln| <= 13.8, |nu| <= 1e6 (1+|w|),
            |w|/scale <= 1e290 (no overflow), Sy = 1
 LogSinh    w = a + b x/xmax >= 1e-4, w <= 1e6, Sx = xmax max(a/b, |x/xmax|); y: b y >= ln sinh 1e-4, Sy = 1/b
-Reciprocal x + nu > 0 and (mininu <= 0 or x + nu < (1-1e-9)/mininu), Sx = |nu|;
-           x + nu >= (1+1e-9)/mininu, mininu > 0: known finding Reciprocal/roundtrip_x/xnu_ge_inv_mininu;
-           y < min(0, -mininu), -1/y >= 1e-6 |nu|, Sy = 0
+Reciprocal 1e-300 < x + nu < 1e300, any mininu, Sx = |nu|; y < 0, -1/y finite and >= 1e-6 |nu|, Sy = 0
 Softmax    entries > 0 (>= 1e-300), sum <= 1 - EPS, Sx = 0 (pure relative); y: |y_i| <= 700, sum exp(y) <= 1e6, Sy = 1
 Sinh       all x (|u| <= 1e300), Sx = |nu|; y: |y| <= 700, |nu| scale <= 1e6 cosh y, cosh(y)/scale <= 1e290, Sy = 1
 Manly      |lam| <= EPS, or |lam| >= 1e-3 with |lam x/xmax| <= 10, Sx = xmax; y: 1 + lam y > 0, |ln(1+lam y)| <= 10, Sy = 1
@@ -543,13 +541,8 @@ def region_x(cls, P, x):
     if cls == "Reciprocal":
         nu, m = P["nu"], P["mininu"]
         s = x + nu
-        if not (s > 0 and s > 1e-300 and s >= 1e-9 * abs(nu)):
+        if not (s > 0 and 1e-300 < s < 1e300 and s >= 1e-9 * abs(nu)):
             return None
-        if m > 0:
-            if s >= (1 + 1e-9) / m:
-                return (abs(nu), "reciprocal", "xnu_ge_inv_mininu")
-            if not s < (1 - 1e-9) / m:
-                return None
         return (abs(nu), "reciprocal", None)
     if cls == "Sinh":
         u = (x - P["nu"]) * P["scale"]
@@ -656,9 +649,7 @@ def region_y(cls, P, y, x):
         return (1 / b, "logsinh", None)
     if cls == "Reciprocal":
         nu, m = P["nu"], P["mininu"]
-        if not (y < 0 and y < -m * (1 + 1e-9) and y < -m + 0):
-            return None
-        if m < 0 and not y < 0:
+        if not y < 0:
             return None
         if not (-1 / y >= 1e-6 * abs(nu) and fin(-1 / y)):
             return None
@@ -796,13 +787,6 @@ def body(ctx):
         scale, tag, known = reg
         tol = 1e-6 * max(abs(a), scale)
         ok = fin(back) and abs(back - a) <= tol
-        if known == "xnu_ge_inv_mininu":
-            # known: NaN where x + nu >= 1/mininu ; anything else there is not judged
-            if back != back:
-                ctx.finding(f"{cls}/roundtrip_{direction}/{known}",
-                            "Reciprocal.backward guards with y < -mininu: backward(forward(x)) is NaN for x + nu >= 1/mininu",
-                            {"class": cls, "params": P, what_in: a, "mid": b_, "back": back})
-            return
         if ok:
             return
         if known == "lam_just_above_switch" and fin(back) and abs(back - a) <= 1e-4 * max(abs(a), scale):
